@@ -40,6 +40,8 @@ def case_strategy(draw, big=False):
     case['dist2'] = gen.r6(draw(gen.logf(1.0, 1e6)))
     # options that must not influence any number: time measurement
     case['timing'] = draw(st.integers(0, 3)) == 0
+    # far-field requests made on the same solution before the one that is checked (0..2)
+    case['warm'] = draw(st.sampled_from([0, 0, 1, 1, 2]))
     return case
 
 
@@ -97,6 +99,11 @@ def check(case):
     kw = {'dist': dist}
     if pw is not None:
         kw['pwr'] = pw
+    for w_ in range(case.get('warm', 0)):
+        # earlier requests on the same solution (another grid, no power level) must not matter
+        m.compute_far_field(A(10.0 + 5 * w_, 20.0, 2), A(5.0, 40.0, 3))
+    if case.get('warm'):
+        labels.append('earlier-requests')
     m.compute_far_field(A(*th), A(*ph), **kw)
     ff = m.far_field
     # gain is indexed (theta, phi, column); the field and angle arrays (phi, theta)
